@@ -43,6 +43,11 @@ impl<S: Storage> InsertExecutor<S> {
         #[for_await]
         for chunk in child {
             let chunk = Evaluator::new(&expr).eval_list(&chunk?)?;
+            for (col, array) in columns.iter().zip(chunk.arrays()) {
+                if !col.is_nullable() && (0..array.len()).any(|i| array.get(i).is_null()) {
+                    Err(ExecutorError::not_nullable())?;
+                }
+            }
             cnt += chunk.cardinality();
             txn.append(chunk).await?;
         }
